@@ -456,7 +456,7 @@ def collect_rw(b, rd, wrt):
 # ---------------------------------------------------------------------------------------------
 
 SRC = """import cohdl
-from cohdl import std, Port, Bit, BitVector, Signal, Temporary, Variable
+from cohdl import std, Port, Bit, BitVector, Signal, Temporary, Variable, Unsigned
 
 
 class H:
@@ -476,6 +476,9 @@ class W(cohdl.Entity):
     b = Port.input(Bit)
     c = Port.output(Bit)
     d = Port.output(Bit)
+    ix = Port.input(Unsigned[2])
+    vin = Port.input(BitVector[4])
+    e = Port.output(BitVector[4])
 
     def architecture(self):
 {fns}        {deco}
@@ -844,6 +847,28 @@ def source_grid(ck):
         for kd in ((("comb", "clk")[cnt[0] % 2],) if ck.tier == "quick" else ("comb", "clk")):
             progs.append(Prog(f"g{cnt[0]:04d}_{kd}", kd, [["raw", lines]],
                               {"construct": "bool-cast", "shape": nm, "def_at": "cast", "use_at": "after", "proc": kd}))
+    # ---- intermediates the compiler creates itself: computed run-time indices of assignment targets and of reads
+    ii = [
+        ("target-computed", ["self.e[self.ix + 1] <<= self.b"]),
+        ("target-plain", ["self.e[self.ix] <<= self.b"]),
+        ("read-computed", ["self.c <<= self.vin[self.ix + 1]"]),
+        ("target-and-read", ["self.e[self.ix + 1] <<= self.vin[self.ix - 1]"]),
+        ("target-in-if", ["if self.p:", "    self.e[self.ix + 1] <<= self.b", "else:", "    self.e[self.ix] <<= self.q"]),
+        ("target-in-match", ["match self.a:", "    case \"00\":", "        self.e[self.ix + 1] <<= self.b", "    case _:",
+                             "        self.e[self.ix - 1] <<= self.q"]),
+        ("target-index-reused", ["k = self.ix + 1", "self.e[k] <<= self.b", "self.c <<= self.vin[k]"]),
+        ("target-slice-of-read", ["self.e[self.vin[1:0].unsigned] <<= self.b"]),
+    ]
+    for nm, lines in ii:
+        cnt[0] += 1
+        for kd in ("comb", "clk"):
+            progs.append(Prog(f"g{cnt[0]:04d}_{kd}", kd, [["raw", lines]],
+                              {"construct": "implicit-index", "shape": nm, "def_at": "compiler", "use_at": "same statement", "proc": kd}))
+    cnt[0] += 1
+    progs.append(Prog(f"g{cnt[0]:04d}_coro", "coro", [["raw", ["self.e[self.ix + 1] <<= self.b", "await self.q",
+                                                               "self.e[self.ix - 1] <<= self.p", "await self.p",
+                                                               "self.c <<= self.vin[self.ix + 1]"]]],
+                      {"construct": "implicit-index", "shape": "states", "def_at": "compiler", "use_at": "same statement", "proc": "coro"}))
     # ---- value branches (tests/invalid_builds/test_invalid_value_branch.py): a value selected by `a if c else b`
     A, B = "(self.b | self.p)", "(self.b & self.p)"
     vb = [
